@@ -211,11 +211,17 @@ func Decide(env *Env, cf *ClaimsFile, res *Result, replay func(o *Obl)) *Verdict
 		os.WriteFile(base+".json", b, 0o644)
 		return base + ".json"
 	}
+	// A broken tree can fail tens of thousands of bounded-tier obligations: the first maxReplays failed obligations
+	// are replayed individually here (engines replay in batches before), the first maxListed get their own
+	// FAILED-OBLIGATION / VIOLATION lines and replay files, the rest are counted in one summary line.
+	const maxReplays, maxListed = 12, 40
+	nReplays, nSilent := 0, 0
 	for _, o := range v.Claimed {
 		if o.Status == Discharged {
 			continue
 		}
-		if (o.Status == Refuted || (o.Status == Unknown && o.ReplayKind == "compile-probe")) && replay != nil && o.Replay == nil {
+		if (o.Status == Refuted || (o.Status == Unknown && o.ReplayKind == "compile-probe")) && replay != nil && o.Replay == nil && nReplays < maxReplays {
+			nReplays++
 			replay(o)
 		}
 		if k := kf.match(cf.Property, o); k != nil {
@@ -224,6 +230,10 @@ func Decide(env *Env, cf *ClaimsFile, res *Result, replay func(o *Obl)) *Verdict
 			continue
 		}
 		v.Violations = append(v.Violations, o)
+		if len(v.Violations) > maxListed {
+			nSilent++
+			continue
+		}
 		p := writeReplay(o)
 		line := fmt.Sprintf("VIOLATION property=%s replay=%s", cf.Property, p)
 		if o.Replay == nil || !o.Replay.Confirmed {
@@ -232,12 +242,17 @@ func Decide(env *Env, cf *ClaimsFile, res *Result, replay func(o *Obl)) *Verdict
 		v.Lines = append(v.Lines, fmt.Sprintf("FAILED-OBLIGATION %s [%s] %s %s", o.Name, o.Status, o.Detail, o.Witness))
 		v.Lines = append(v.Lines, line)
 	}
+	if nSilent > 0 {
+		v.Lines = append(v.Lines, fmt.Sprintf("FAILED-OBLIGATIONS-NOT-LISTED property=%s count=%d (only the first %d failed obligations are listed above)", cf.Property, nSilent, maxListed))
+	}
 	// unclaimed: only a replayed counterexample is reported
+	nUnclReplays := 0
 	for _, o := range v.Unclaimed {
 		if o.Status != Refuted || o.Canary {
 			continue
 		}
-		if replay != nil && o.Replay == nil && o.ReplayKind != "" {
+		if replay != nil && o.Replay == nil && o.ReplayKind != "" && nUnclReplays < maxReplays {
+			nUnclReplays++
 			replay(o)
 		}
 		if o.Replay != nil && o.Replay.Confirmed {
